@@ -24,7 +24,7 @@ class C05(Engine):
     property_id = "C05"
     level = "exploration"
     budgets = {
-        "quick": {"runs": 3000, "wall": 80, "min_runs": 150, "min_wall": 30},
+        "quick": {"runs": 10000, "wall": 80, "min_runs": 150, "min_wall": 30},
         "thorough": {"runs": 100000, "wall": 1500, "min_runs": 400, "min_wall": 90},
     }
     rule = (
